@@ -34,10 +34,10 @@ Theorem C01_honest_apreq_accepted : forall st kt t rc tk aet ac wire rest et au 
   (st_require_addr st = true -> et_caddr et <> []) ->
   au_cname au = et_cname et -> au_crealm au = et_crealm et ->
   Z.abs (t - (us (au_ctime au) + au_cusec au)) <= st_skew st ->
-  ~ In (mkAuth (join_slash (au_cname au)) (us (au_ctime au) + au_cusec au) (tk_sname tk)) rc ->
+  ~ In (mkAuth (join_slash (au_cname au)) (us (au_ctime au) + au_cusec au) (eff_sname st tk)) rc ->
   verify_apreq_bytes st kt t rc (wire ++ rest) =
   (Accept (mkIdentity (join_slash (et_cname et)) (et_crealm et) (et_cname et) (et_end et)),
-   mkAuth (join_slash (au_cname au)) (us (au_ctime au) + au_cusec au) (tk_sname tk) :: rc).
+   mkAuth (join_slash (au_cname au)) (us (au_ctime au) + au_cusec au) (eff_sname st tk) :: rc).
 Proof. exact honest_apreq_accepted. Qed.
 Print Assumptions C01_honest_apreq_accepted.
 
@@ -57,11 +57,11 @@ Theorem C01_honest_replay_rejected : forall st kt t t' rc tk aet ac wire rest et
   (st_require_addr st = true -> et_caddr et <> []) ->
   au_cname au = et_cname et -> au_crealm au = et_crealm et ->
   Z.abs (t - (us (au_ctime au) + au_cusec au)) <= st_skew st ->
-  ~ In (mkAuth (join_slash (au_cname au)) (us (au_ctime au) + au_cusec au) (tk_sname tk)) rc ->
+  ~ In (mkAuth (join_slash (au_cname au)) (us (au_ctime au) + au_cusec au) (eff_sname st tk)) rc ->
   match et_start et with Some s => us s - t' <= st_skew st | None => True end ->
   t' - us (et_end et) <= st_skew st ->
   Z.abs (t' - (us (au_ctime au) + au_cusec au)) <= st_skew st ->
-  let a := mkAuth (join_slash (au_cname au)) (us (au_ctime au) + au_cusec au) (tk_sname tk) in
+  let a := mkAuth (join_slash (au_cname au)) (us (au_ctime au) + au_cusec au) (eff_sname st tk) in
   let first := verify_apreq_bytes st kt t rc (wire ++ rest) in
   snd first = a :: rc /\
   verify_apreq_bytes st kt t' (snd first) (wire ++ rest) = (Reject 34, a :: rc).
